@@ -4,7 +4,7 @@ use syn::{
     parse_quote,
     visit::{visit_path, Visit},
     visit_mut::{visit_type_mut, VisitMut},
-    GenericParam, Generics, Ident, Type,
+    Fields, GenericParam, Generics, Ident, Type,
 };
 
 macro_rules! bail {
@@ -30,6 +30,11 @@ impl VisitableMut for Type {
 impl VisitableMut for Generics {
     fn visit_mut(&mut self, visit: &mut impl VisitMut) {
         visit.visit_generics_mut(self);
+    }
+}
+impl VisitableMut for Fields {
+    fn visit_mut(&mut self, visit: &mut impl VisitMut) {
+        visit.visit_fields_mut(self);
     }
 }
 pub fn expand_self<T: VisitableMut + Clone>(input: &T, to: &Type) -> T {
